@@ -1249,8 +1249,27 @@ class Segment:
                     setattr(gmod, fname, getattr(simrandom, fname))
         self.disk.begin_op(None)
         again = None
+        plain = bool(self.job.get("conc_plain"))
         try:
-            if op.get("interrupt"):
+            if plain:
+                # reference interpreter: the calls one after the other, nothing else
+                seq = sequential()
+                rec["final"] = seq
+                rec["outcome"] = "ok"
+                return
+            if op.get("interrupt") and op.get("order") == "cancel_first":
+                # no call of this operation has run in this interpreter before the cancelled
+                # one: first-use initialisation and caches are exposed to the cancellation.  The
+                # reference is the plain replica (compared by the orchestrator).
+                sch, finished, conc = concurrent()
+                again = sequential()
+                for li in redo:
+                    mine = [self.conc_eval(sub, slot) for sub, slot in zip(lanes[li], redo[li])]
+                    if mine != again[li]:
+                        again[li] = mine
+                seq = again
+                rec["final"] = again
+            elif op.get("interrupt"):
                 # one lane's call is cancelled half-way; afterwards every call is made once more
                 seq = sequential()
                 sch, finished, conc = concurrent()
